@@ -376,6 +376,9 @@ class Interp:
         if k >= 0:
             name = c[:k]
         name = strip_generics_text(name)
+        ov = getattr(self, 'const_override', None)
+        if ov and name.split('::')[-1] in ov:
+            return ov[name.split('::')[-1]]
         if name == '[]':
             return Array([])
         if fr is not None and fr.env and name in fr.env:
